@@ -52,7 +52,7 @@ inductive Mod where
   | npm
   | node
   | external
-  deriving Repr, Inhabited
+  deriving DecidableEq, Repr, Inhabited
 
 def Mod.mediaType : Mod → MediaType
   | .js mt _ _ _ => mt
@@ -82,7 +82,7 @@ inductive Slot where
   | module (m : Mod)
   | err (missing : Bool) (code : Nat) (errSpec : Spec)
   | pending
-  deriving Repr, Inhabited
+  deriving DecidableEq, Repr, Inhabited
 
 structure Graph where
   kind : GraphKind
